@@ -12,25 +12,30 @@ def move_plan(A, B):
     """deterministic in the case: about one case in six has one operand arrive by a primed in-place move (built elsewhere,
     queried, moved to its place) instead of being constructed in place — stale derived state after move() then shows up as a
     wrong intersection / membership.  -> None | (operand index, translation)"""
-    h = int(hashlib.blake2b((tok(A) + '|' + tok(B)).encode(), digest_size=4).hexdigest(), 16)
-    if h % 6 != 0:
+    if A[0] in ('V', 'N', 'none') and B[0] in ('V', 'N', 'none'):
+        return None
+    h = int(hashlib.blake2b((repr(A) + '|' + repr(B)).encode(), digest_size=4).hexdigest(), 16)
+    if h % 6 not in (0, 1):
         return None
     which = (h // 6) % 2
-    if (A, B)[which][0] in ('N', 'V'):
+    if (A, B)[which][0] in ('N', 'V', 'none'):
         which = 1 - which
-    if (A, B)[which][0] in ('N', 'V'):
+    if (A, B)[which][0] in ('N', 'V', 'none'):
         return None
-    return which, MOVES[(h // 12) % len(MOVES)]
+    return which, MOVES[(h // 12) % len(MOVES)], ('move' if h % 6 == 0 else 'decoy')
 
 
 def build_pair(impl, A, B):
+    """one case in six: an operand arrives by a primed in-place move; one in six: an operand is built from Point instances that
+    are shared with decoy objects which are then moved (constructors must copy their arguments)"""
     mp = move_plan(A, B)
     if mp is None:
         return impl.build(A), impl.build(B)
-    which, t = mp
+    which, t, mode = mp
+    f = impl.build_via_move if mode == 'move' else impl.build_with_decoy
     if which == 0:
-        return impl.build_via_move(A, t), impl.build(B)
-    return impl.build(A), impl.build_via_move(B, t)
+        return f(A, t), impl.build(B)
+    return impl.build(A), f(B, t)
 
 
 def observe(impl, A, B, method=False):
@@ -85,8 +90,9 @@ def judge(ctx, prop, A, B, cls, obs, mline, use_oracle=True, extra_key=''):
     ctx.count(key, nontrivial=(truth[0] != 'none'))
     ctx.dist['%s-%s -> %s' % (A[0], B[0], truth[0])] += 1
     ctx.dist['class ' + cls.split(':')[0]] += 1
-    if move_plan(A, B) is not None:
-        ctx.dist['one operand arrived by a primed in-place move'] += 1
+    mp_ = move_plan(A, B)
+    if mp_ is not None:
+        ctx.dist['one operand arrived by a primed in-place move' if mp_[2] == 'move' else 'one operand shares its Points with decoy objects that were then moved'] += 1
     if orc is not None and not (m[0] != 'err' and compare.same_den(m, orc, 1e-9)):
         ok, why = admit.admitted([A, B], extra_points=[p for p in (compare.verts(orc) if orc[0] in 'GB' else [q for q in orc[1:] if isinstance(q, tuple)])])
         if ok:
